@@ -33,13 +33,13 @@ def kexinit_payload(kex, key, enc, mac, comp=('none',), lang=(), enc_c=None, mac
     def nl(names):
         if isinstance(names, (bytes, bytearray)):
             return sshstr(bytes(names))
-        if names and not isinstance(names[0], str):
+        if names and any(not isinstance(x, str) for x in names):
             # symbolic names: join manually
             out = b''
             for i, x in enumerate(names):
                 if i:
                     out = out + b','
-                out = out + (x if not isinstance(x, str) else x.encode())
+                out = out + (x.encode('utf-8') if not isinstance(x, bytes) else x)
             return u32(len(out)) + out
         return sshstr(','.join(names).encode())
     enc_c = enc if enc_c is None else enc_c
